@@ -35,7 +35,7 @@ type op struct {
 	Seed   uint64 `json:"seed,omitempty"`
 	Meta   string `json:"meta,omitempty"`
 	// complete: which parts to list and how
-	Select []int  `json:"select,omitempty"` // part numbers in the order listed
+	Select []int  `json:"select,omitempty"`  // part numbers in the order listed
 	ETagOf string `json:"etag_of,omitempty"` // current, stale, foreign, quoted, missing
 	// partcopy
 	Src   int    `json:"src,omitempty"` // source object slot
@@ -79,7 +79,7 @@ type object struct {
 }
 
 func body(seed uint64, n int) []byte { return s3c.GenBytes(seed, n) }
-func md5sum(b []byte) []byte        { s := md5.Sum(b); return s[:] }
+func md5sum(b []byte) []byte         { s := md5.Sum(b); return s[:] }
 
 var worlds = map[string]*world{}
 
@@ -576,7 +576,7 @@ func opGen() *rapid.Generator[op] {
 		case "create":
 			o.Meta = rapid.SampledFrom([]string{"u-a", "u-b", "u-c", "u-d"}).Draw(t, "meta")
 		case "part", "partcopy":
-			o.PartNo = rapid.SampledFrom([]string{"1", "1", "2", "2", "3", "4", "5", "10000", "0", "10001", "-1", "x", ""}).Draw(t, "part_no")
+			o.PartNo = rapid.SampledFrom([]string{"1", "1", "2", "2", "3", "4", "5", "10", "11", "20", "100", "10000", "0", "10001", "-1", "x", ""}).Draw(t, "part_no")
 			o.Size = rapid.SampledFrom([]int{minPart, minPart, minPart + 1, minPart - 1, 0, 1, 100, 70001}).Draw(t, "size")
 			o.Seed = rapid.Uint64Range(1, 1000).Draw(t, "seed")
 			if o.Kind == "partcopy" {
@@ -620,6 +620,10 @@ func programGen() *rapid.Generator[[]op] {
 			}
 			sc := []op{{Kind: "create", Key: key, Meta: fmt.Sprintf("u-%c", 'a'+i)}}
 			nparts := rapid.IntRange(1, 3).Draw(t, "nparts")
+			// the part numbers of the script: ascending, but not always 1, 2, 3 and not always of one digit count
+			// (numbers and their decimal spellings order differently)
+			numbering := rapid.SampledFrom([][]int{{1, 2, 3, 4, 5}, {1, 2, 3, 4, 5}, {2, 10, 11, 12, 100}, {9, 10, 11, 100, 101}, {5, 50, 500, 5000, 10000}}).Draw(t, "numbering")
+			num := func(pn int) int { return numbering[pn-1] }
 			for pn := 1; pn <= nparts; pn++ {
 				size := minPart
 				if pn == nparts {
@@ -627,7 +631,7 @@ func programGen() *rapid.Generator[[]op] {
 				} else if rapid.IntRange(0, 5).Draw(t, "small_middle") == 0 {
 					size = minPart - 1
 				}
-				sc = append(sc, op{Kind: "part", PartNo: fmt.Sprint(pn), Size: size, Seed: rapid.Uint64Range(1, 1000).Draw(t, "pseed")})
+				sc = append(sc, op{Kind: "part", PartNo: fmt.Sprint(num(pn)), Size: size, Seed: rapid.Uint64Range(1, 1000).Draw(t, "pseed")})
 			}
 			if rapid.IntRange(0, 2).Draw(t, "reupload") == 0 {
 				pn := rapid.IntRange(1, nparts).Draw(t, "re_pn")
@@ -635,24 +639,29 @@ func programGen() *rapid.Generator[[]op] {
 				if pn == nparts {
 					size = 4242
 				}
-				sc = append(sc, op{Kind: "part", PartNo: fmt.Sprint(pn), Size: size, Seed: rapid.Uint64Range(1001, 2000).Draw(t, "re_seed")})
+				sc = append(sc, op{Kind: "part", PartNo: fmt.Sprint(num(pn)), Size: size, Seed: rapid.Uint64Range(1001, 2000).Draw(t, "re_seed")})
 			}
 			if rapid.IntRange(0, 3).Draw(t, "with_copy") == 0 {
-				sc = append(sc, op{Kind: "partcopy", PartNo: fmt.Sprint(nparts + 1), Range: rapid.SampledFrom([]string{"", "bytes=0-5242879", "bytes=7-106", "bytes=100-"}).Draw(t, "crange")})
+				sc = append(sc, op{Kind: "partcopy", PartNo: fmt.Sprint(num(nparts + 1)), Range: rapid.SampledFrom([]string{"", "bytes=0-5242879", "bytes=7-106", "bytes=100-"}).Draw(t, "crange")})
 				nparts++
 			}
 			var sel []int
 			switch rapid.IntRange(0, 5).Draw(t, "sel_kind") {
 			case 0, 1, 2, 3:
 				for pn := 1; pn <= nparts; pn++ {
-					sel = append(sel, pn)
+					sel = append(sel, num(pn))
 				}
 			case 4:
-				sel = rapid.SliceOfN(rapid.IntRange(1, nparts+1), 1, 4).Draw(t, "sel_free")
+				for _, pn := range rapid.SliceOfN(rapid.IntRange(1, nparts+1), 1, 4).Draw(t, "sel_free") {
+					sel = append(sel, num(pn))
+				}
 			default:
 				for pn := nparts; pn >= 1; pn-- {
-					sel = append(sel, pn)
+					sel = append(sel, num(pn))
 				}
+			}
+			if rapid.IntRange(0, 2).Draw(t, "list_parts") == 0 {
+				sc = append(sc, op{Kind: "listparts", Max: rapid.SampledFrom([]string{"1", "2", "2", "3"}).Draw(t, "lp_max"), Marker: rapid.SampledFrom([]string{"", "", "1", "2", "10"}).Draw(t, "lp_marker")})
 			}
 			end := op{Kind: "complete", Select: sel, ETagOf: rapid.SampledFrom([]string{"current", "current", "current", "current", "stale", "quoted", "foreign"}).Draw(t, "etag_of")}
 			if rapid.IntRange(0, 5).Draw(t, "abort_instead") == 0 {
